@@ -178,7 +178,7 @@ Lemma list_step_size delim cursor prefix maxres a e :
   (length (la_found a') + length (la_prefixes a') <= la_count a')%nat /\ (la_count a' <= maxres)%nat.
 Proof.
   intros [H1 H2]. destruct e as [f d]. cbn zeta. unfold list_step.
-  repeat match goal with
+  timeout 120 repeat match goal with
   | |- context [match ?x with _ => _ end] =>
       lazymatch x with
       | context [match _ with _ => _ end] => fail
@@ -517,9 +517,9 @@ Example listing_example :
      = BList [view bk [97; 50]%N (mkObj [1]%N [116]%N (clock0 + 4)%Z 1 true []);
               view bk [97; 51]%N (mkObj [1]%N [116]%N (clock0 + 3)%Z 1 true [])] [] None.
 Proof.
-  cbn zeta. split; [vm_compute; reflexivity|]. split.
-  { repeat (constructor; [|repeat (constructor; [vm_compute; reflexivity|]); constructor]). constructor. }
-  split; [vm_compute; reflexivity|]. split; vm_compute; reflexivity.
+  cbn zeta. split; [timeout 60 vm_compute; reflexivity|]. split.
+  { repeat (constructor; [|repeat (constructor; [timeout 60 vm_compute; reflexivity|]); constructor]). constructor. }
+  split; [timeout 60 vm_compute; reflexivity|]. split; timeout 60 vm_compute; reflexivity.
 Qed.
 
 (* ================================================================== *)
@@ -542,8 +542,8 @@ Lemma paginate_with_delimiter_refuted :
   /\ list_proj (snd (handle s (RList bk [] [47]%N (Some [97]%N) (Some [50]%N)))) = ([], [[98; 47]%N], None)
   /\ find_obj s bk [99]%N <> None /\ sel [] [] [99]%N = true /\ has_prefix [99]%N [98; 47]%N = false.
 Proof.
-  cbn zeta. split; [vm_compute; reflexivity|]. split; [vm_compute; reflexivity|].
-  split; [vm_compute; discriminate|]. split; vm_compute; reflexivity.
+  cbn zeta. split; [timeout 60 vm_compute; reflexivity|]. split; [timeout 60 vm_compute; reflexivity|].
+  split; [timeout 60 vm_compute; discriminate|]. split; timeout 60 vm_compute; reflexivity.
 Qed.
 
 (* a multipart upload may name its object "" (only the media upload rejects an empty name); the
@@ -556,4 +556,4 @@ Lemma empty_name_never_listed_witness :
   r_status (snd (handle init_state r)) = 200%Z
   /\ r_status (snd (handle (fst (handle init_state r)) (RGetMedia bk []))) = 200%Z
   /\ list_proj (snd (handle (fst (handle init_state r)) (RList bk [] [] None None))) = ([], [], None).
-Proof. cbn zeta. repeat split; vm_compute; reflexivity. Qed.
+Proof. cbn zeta. repeat split; timeout 60 vm_compute; reflexivity. Qed.
